@@ -19,7 +19,7 @@ func init() {
 				"(largest) among competing proposals the winner replaces the current leader only on strictly larger voted power; (effect) stop(), SetNewCommissions and AddVersion are dominated by the respective decision; (votes) the three vote handlers reject past heights (`data.Height < currentBlock`), duplicate votes (IsVoteExists/IsHaltExists on the same height and key) and non-owners, and the vote they record is what the duplicate test reads. " +
 				"NOT decided: that validatorsPowers/totalPower hold the present validators' stakes (C17/C19), big.Int arithmetic itself.",
 			Assumptions: stdAssumptions,
-			Rules:       []string{"C20.exact", "C20.largest", "C20.effect", "C20.votes", "C20.powers", "C20.presence"},
+			Rules:       []string{"C20.exact", "C20.largest", "C20.effect", "C20.votes", "C20.powers", "C20.presence", "C20.dupsource"},
 		},
 		Run: runC20,
 	})
@@ -208,6 +208,7 @@ func checkVotingPowers(c *core.Ctx, rule string) {
 
 func runC20(c *core.Ctx) {
 	defer checkVotingPowers(c, "C20.powers")
+	defer checkDuplicateSource(c, "C20.dupsource")
 	defer func() {
 		// the presence map the tallies weigh votes with is the one of the block being processed
 		bt := c.Named("coreV2/minter", "Blockchain")
@@ -510,4 +511,81 @@ func checkVoteHandlers(c *core.Ctx, rule string) {
 		c.Check(ok, rule, "checkCandidateOwnership/shape", fn.Pos(), "compares Candidates().GetCandidateOwner(data.GetPubKey()) with tx.Sender()", "checkCandidateOwnership no longer compares the candidate's owner with tx.Sender()")
 	}
 	c.Floor(rule, c.Count(rule), 12, "vote-handler gates")
+}
+
+// checkDuplicateSource — C20.dupsource. "This validator already voted for that height" has to be
+// answered from what is persisted — the vote lists of the module's records (exported, i.e. encoded,
+// fields loaded through the module's loader) — because the answer must be the same after a
+// restart. Decided for the three duplicate tests (IsHaltExists, Commission.IsVoteExists,
+// Update.IsVoteExists): a positive answer is returned under a comparison that reads an exported
+// field of a record of the module, and no answer is the outcome of a lookup in an unexported map
+// of the module itself (an index that only the running process fills).
+func checkDuplicateSource(c *core.Ctx, rule string) {
+	targets := []struct{ pkg, typ, method string }{
+		{core.PkgState + "/halts", "HaltBlocks", "IsHaltExists"},
+		{core.PkgState + "/commission", "Commission", "IsVoteExists"},
+		{core.PkgState + "/update", "Update", "IsVoteExists"},
+	}
+	for _, t := range targets {
+		nt := c.Named(t.pkg, t.typ)
+		if nt == nil {
+			c.Unk(rule, t.typ+"."+t.method, token.NoPos, "type not found")
+			continue
+		}
+		fn := c.Method(nt, t.method)
+		if fn == nil {
+			c.Unk(rule, t.typ+"."+t.method, token.NoPos, "method not found")
+			continue
+		}
+		key := t.typ + "." + t.method
+		recv := fn.Params[0]
+		exportedRecordField := func(y ssa.Value) bool {
+			fa, ok := y.(*ssa.FieldAddr)
+			if !ok || !token.IsExported(fieldNameOf(fa)) {
+				return false
+			}
+			n := namedOf(fa.X.Type())
+			return n != nil && n.Obj().Pkg() != nil && strings.HasSuffix(n.Obj().Pkg().Path(), t.pkg)
+		}
+		volatileLookup := func(y ssa.Value) bool {
+			lk, ok := y.(*ssa.Lookup)
+			if !ok {
+				return false
+			}
+			x := lk.X
+			if inner, ok := core.Unwrap(x).(*ssa.Lookup); ok {
+				x = inner.X
+			}
+			ld, ok := core.Unwrap(x).(*ssa.UnOp)
+			if !ok {
+				return false
+			}
+			fa, ok := ld.X.(*ssa.FieldAddr)
+			return ok && core.Unwrap(fa.X) == ssa.Value(recv) && !token.IsExported(fieldNameOf(fa))
+		}
+		positive, bad := false, ""
+		for _, r := range core.Returns(fn) {
+			if r.Block() == fn.Recover || len(r.Results) != 1 {
+				continue
+			}
+			v := resolveRet(r, 0)
+			if k, ok := core.Unwrap(v).(*ssa.Const); ok {
+				if k.Value != nil && k.Value.String() == "true" {
+					for _, g := range core.GatesBefore(r) {
+						if core.DependsOn(g.If.Cond, exportedRecordField) {
+							positive = true
+						}
+					}
+				}
+				continue
+			}
+			if core.DependsOn(v, volatileLookup) {
+				bad = c.PosStr(r.Pos())
+			} else if core.DependsOn(v, exportedRecordField) {
+				positive = true
+			}
+		}
+		c.Check(positive && bad == "", rule, key, fn.Pos(), "the duplicate test answers from the persisted vote list of the module's records",
+			"the duplicate test does not answer from the persisted vote list (its result at "+bad+" is the outcome of a lookup in an in-memory map of the module, or no positive answer reads a record field): after a restart the map is empty and a validator can vote a second time — its power is counted twice in the tally")
+	}
 }
